@@ -732,8 +732,12 @@ func c06CipherSuites(a []string) (string, string) {
 	defer e.cancel()
 	bmc.RetrieveSupportedCipherSuites(e.ctx, e.t)
 	out := e.outcome()
-	if len(e.sent) != n+1 {
-		return out, fmt.Sprintf("%d requests for %d full pages and a short one", len(e.sent), n)
+	want := n + 1
+	if want > 64 {
+		want = 64 // the list index is 6 bits wide: discovery ends with index 63 (see C16), whatever page 63 holds
+	}
+	if len(e.sent) != want {
+		return out, fmt.Sprintf("%d requests for %d full pages and a short one, want %d", len(e.sent), n, want)
 	}
 	for i, d := range e.sent {
 		if i > 63 {
